@@ -23,6 +23,7 @@ def need(fx, fid):
 
 def run(ctx):
     fx = ctx.facts("default")
+    order.use_facts(fx)
     fixtures.run(ctx, ['order', 'lru'])
     # recency: every access to an existing entry moves it to the head; list operations run under the index lock
     LM = 'containers::specialized::lru_map::LruMap::<K, V, E>::'
